@@ -383,6 +383,20 @@ func (c *Ctx) specEffects(sp *FuncSpec, fn *ssa.Function, cc *ssa.CallCommon, l 
 			l.Reasons = append(l.Reasons, "modifies heap of "+sp.Name)
 			continue
 		}
+		if strings.HasPrefix(m, "every ") {
+			env := &SpecEnv{C: c, Vars: map[string]TV{}}
+			if pkg := c.findPackage(sp.Pkg, nil); pkg != nil {
+				env.Pkg = pkg
+			}
+			cn, cs, err := c.everyComp(env, m)
+			if err != nil {
+				l.ModAll = true
+				l.Reasons = append(l.Reasons, "modifies "+m+" of "+sp.Name+" (unresolved)")
+				continue
+			}
+			l.ModComps[cn] = cs
+			continue
+		}
 		// resolve the static type of the base expression from the callee's signature
 		comps := c.modifiesComps(sp, fn, cc, m)
 		if comps == nil {
@@ -594,6 +608,9 @@ func (s *State) atLoopHead(l *Loop) bool {
 			env := c.funcEnv(s, fr, false)
 			ts, _ := s.modTargets(env, strings.TrimSpace(m))
 			for _, t := range ts {
+				if t.Ref == "" && !strings.HasPrefix(t.Comp, "G:") {
+					continue
+				}
 				declared[t.Comp] = append(declared[t.Comp], t.Ref)
 			}
 		}
